@@ -70,8 +70,9 @@ def gen_large_spec(rng, shape):
     orders = distinct_sample(rng, 0, 5, nd)
     spec = build_spec(rng, orders, list(shape), True)
     # PermModel.relocate is a literal list model (one list update per coefficient: quadratic, and not tail recursive); on these
-    # tables the implementation is judged by the statement of the theorems proved about it (C15_coeff_relocated,
-    # C15_attributes_permuted, C15_strides_row_major: the oracle below), not by running the model
+    # tables the implementation is judged by the statement of the theorems proved about it (C15_coeff_relocated, C15_attributes,
+    # C15_shape: the oracle below), which by C15_coeff_relocation_determines_the_array is the same as comparing the coefficient
+    # array with the model's output
     spec["large"] = 1
     return spec
 
@@ -503,7 +504,7 @@ RULE = ("tables of 1..6 dims with pairwise different orders, axis lengths, knot 
         "permutation followed by its inverse, C wrapper (every third), composition with a second permutation, evaluation at permuted points; per table "
         "every malformed class (short, long, empty, out of range incl. 2^32+k and 2^64-1, duplicate, duplicate+out of range in both orders, all equal) alone, "
         "after and before a valid permutation; plus whole tables of >= 2^16 (thorough: up to 2^20) coefficients whose axis lengths are multiples of 8..64 or one off "
-        "(judged by the statements of the C15 theorems, the quadratic list model is not run on them); non-trivial = permutation is not the identity or the argument is malformed; distinct by (table, operation)")
+        "(judged by the statements of the C15 theorems — by C15_coeff_relocation_determines_the_array that statement determines the model's output —, the quadratic list model is not run on them); non-trivial = permutation is not the identity or the argument is malformed; distinct by (table, operation)")
 
 def run(info, out):
     tier, seed = info["tier"], info["seed"]
